@@ -31,6 +31,13 @@ ATOMS = [I(1), B(True), F(False, 1, 0), D(False, 1, 0), I(0), B(False), S("a"), 
          {"t": "list", "oid": 0, "xs": [B(True)]}, {"t": "dict", "oid": 0, "kvs": []}]
 
 
+SUBLIST = {"id": 901, "kind": 3, "hashable": False, "slots": False, "fields": [], "base": "list"}
+SUBDICT = {"id": 902, "kind": 3, "hashable": False, "slots": False, "fields": [], "base": "dict"}
+UNHASHABLE = [{"t": "list", "oid": 0, "xs": [I(1)]}, {"t": "sub", "cls": SUBLIST, "v": {"t": "list", "oid": 0, "xs": [I(1)]}},
+              {"t": "dict", "oid": 0, "kvs": []}, {"t": "sub", "cls": SUBDICT, "v": {"t": "dict", "oid": 0, "kvs": []}},
+              {"t": "list", "oid": 0, "xs": [B(True)]}, {"t": "set", "oid": 0, "xs": []}]
+
+
 def strs(al: List[int], maxlen: int, t: str = "str") -> List[dict]:
     out = []
     for n in range(maxlen + 1):
@@ -124,6 +131,12 @@ def plane() -> Iterator[Tuple[str, dict, dict]]:
                     for k in ("MinItems", "MaxItems", "ExactItemCount"):
                         for m in range(0, 4):
                             yield "pred", {"k": k, "pid": pid, "n": m}, x
+    # uniqueness among unhashable items that are equal but of different types (a list and an instance of a list
+    # subclass, a dict and an instance of a dict subclass): `(type(item), item)` tells them apart
+    for t in ("list", "tuple"):
+        for n in (2, 3):
+            for xs in itertools.product(UNHASHABLE, repeat=n):
+                yield "pred", {"k": "UniqueItems", "pid": pid}, {"t": t, "oid": 0, "xs": list(xs)}
     for n in range(0, 4):
         for xs in itertools.combinations(hash_atoms[4:], n):
             x = {"t": "set", "oid": 0, "xs": list(xs)}
